@@ -494,6 +494,33 @@ def requestApplied (offG offC : Int → Int) (s : ReqState) (clientSite : Bool) 
     | some c =>                                          -- setts.ServicesRules = nil
       (0, if !contains offC c.sched now then c.nIDs else 0)
 
+/-! ### Several schedule values at once (no sharing)
+
+Go hands schedules around as `*Weekly`; the decoders write through the receiver
+(`*w = weekly`) and `encoding/json` / `yaml.v3` reuse a non-nil pointer found in
+the target.  In the model a value is a value: decoding INTO slot `i` replaces
+slot `i` and nothing else, and `EmptyWeekly()` is the constant `emptyWeekly`. -/
+
+inductive AliasOp
+  | newEmpty                         -- slots = append(slots, EmptyWeekly())
+  | newFull                          -- FullWeekly()
+  | clone (k : Nat)                  -- slots[k].Clone()
+  | decodeInto (i : Nat) (res : Except DErr Weekly)   -- Unmarshal into a target whose field is slots[i]
+
+def aliasStep (slots : List Weekly) : AliasOp → List Weekly
+  | .newEmpty => slots ++ [emptyWeekly]
+  | .newFull => slots ++ [fullWeekly]
+  | .clone k => match slots[k]? with
+    | some w => slots ++ [w]
+    | none => slots
+  | .decodeInto i (.ok w) => slots.set i w
+  | .decodeInto _ (.error _) => slots              -- `*w = weekly` is reached only on success
+
+/-- The slot an operation may change (`none`: it only appends). -/
+def AliasOp.target : AliasOp → Option Nat
+  | .decodeInto i _ => some i
+  | _ => none
+
 /-! ### What one decode case shows (driver output, spec monitor input) -/
 
 /-- Observation of one `Unmarshal…` call followed (on success) by
